@@ -91,7 +91,14 @@ func NewStrListDecoder(reuseRecords bool) *StrListDecoder {
 	return d
 }
 
+// maxStrListPrealloc bounds the capacity reserved up front for a list whose length was read
+// from (possibly hostile) input: beyond it the slice grows as the strings actually arrive
+const maxStrListPrealloc = 1024
+
 func (d *StrListDecoder) strSlice(n uint32) []string {
+	if n > maxStrListPrealloc {
+		n = maxStrListPrealloc
+	}
 	if d.strs != nil {
 		if n > uint32(cap(d.strs)) {
 			d.strs = make([]string, 0, n)
